@@ -30,6 +30,18 @@ BAM_SETS = [
 REGIONS = [("CHR1", 5, 25), ("CHR1", 30, 50), ("CHR2", 10, 30), ("CHR3", 20, 40)]
 
 
+def copy_repo_data(dst):
+    """Copy the repository's alignment test data into the work directory (pysam may create index
+    files next to a file it opens; nothing may be written into the tree under test)."""
+    src = os.path.join(env.REPO, "mchap", "tests", "test_io", "data")
+    shutil.rmtree(dst, ignore_errors=True)
+    os.makedirs(dst)
+    for f in os.listdir(src):
+        if f.startswith("simple.") and (".bam" in f or f.startswith("simple.fasta") or f.startswith("simple.vcf.gz") or f.startswith("simple.bed")):
+            shutil.copy2(os.path.join(src, f), os.path.join(dst, f))
+    return dst
+
+
 def main():
     ck = Check("C19")
     tier = ck.tier
@@ -38,6 +50,7 @@ def main():
     data_wd = os.path.join(ck.wd, "data")
     shutil.rmtree(data_wd, ignore_errors=True)
     os.makedirs(data_wd)
+    repo_data = copy_repo_data(os.path.join(ck.wd, "repo-data"))
     ck.rule = (
         "TLC explores every bag of abstract alignments of the 'filter' instance (flag/MAPQ classes x cell vectors x "
         "samples, <= 3 records) and of the 'threshold' instance (plain reads as a counter machine over the depth table, "
@@ -48,6 +61,7 @@ def main():
     )
     instances = [("MC_%s.cfg" % tier, "FindSnvs-filter", False), ("MC_%s_thresh.cfg" % tier, "FindSnvs-thresholds", True)]
     if not quick:
+        instances.append(("MC_thorough_deep.cfg", "FindSnvs-filter-deep", False))
         instances.append(("MC_thorough_thresh3.cfg", "FindSnvs-thresholds-3samples", True))
     runs = []
     try:
@@ -107,7 +121,7 @@ def main():
     ck.sample({"kind": "state", "hist": big["hist"], "filter_classes": [[c["fc"], c["depth"]] for c in big["cls"]]})
 
     # ---- code -> spec -----------------------------------------------------------
-    rtasks = [{"op": "record_repo", "repo": env.REPO, "seed": ck.seed + i, "tid0": 1000 * i, "bam_sets": [bs], "regions": REGIONS,
+    rtasks = [{"op": "record_repo", "data": repo_data, "seed": ck.seed + i, "tid0": 1000 * i, "bam_sets": [bs], "regions": REGIONS,
                "cfgs": 4 if quick else 16} for i, bs in enumerate(BAM_SETS)]
     for i in range(4 if quick else 32):
         rtasks.append({"op": "record_random", "wd": data_wd, "chunk": i, "seed": ck.seed, "tid0": 100000 + 1000 * i, "n": 6, "cfgs": 4})
